@@ -6,3 +6,4 @@ import TvNetTcp.Props.C16
 #print axioms TV.C16.write_blocks
 #print axioms TV.C16.recv_accepts_at_most_room
 #print axioms TV.C16.udp_emsgsize
+#print axioms TV.C16.udp_limit_is_destination_path
